@@ -41,3 +41,8 @@ $(HO)/capspec_gen.o: $(GEN)/capspec_gen.cpp $(EHDR) $(GEN)/masa.h
 $(BIN)/hist.%: $(HO)/hist_main.o $(HO)/capspec_gen.o $(B)/lib/%/libmasa.a
 	@mkdir -p $(BIN)
 	$(CXX) -o $@ $(HO)/hist_main.o $(HO)/capspec_gen.o $(B)/lib/$*/libmasa.a -lrapidcheck
+
+$(HO)/names_main.o: $(GEN)/api_gen.hpp
+$(BIN)/names.%: $(HO)/names_main.o $(HO)/capspec_gen.o $(B)/lib/%/libmasa.a
+	@mkdir -p $(BIN)
+	$(CXX) -o $@ $(HO)/names_main.o $(HO)/capspec_gen.o $(B)/lib/$*/libmasa.a -lrapidcheck
